@@ -56,6 +56,8 @@ def run(ctx) -> None:
   ctx.rule('R3', 'created trials: id = max_trial_id()+1 read per create, name from the same id', 2)
   ctx.rule('R4', 'surplus algorithm output is stored as REQUESTED on every path to the final return', 1)
   ctx.rule('R5', 'pop() loops test their list for emptiness', 2)
+  ctx.rule('R9', 'the algorithm\'s whole answer reaches SuggestTrials (the Pythia servicer does not cut or re-bind it); every finished '
+           'operation carries the collected trials', 3)
   ctx.rule('R7', 'SuggestTrials answers with the worker\'s pending operation or with the operation it created in this call, '
            'never with a finished earlier one (its trials may meanwhile belong to someone else)', 2)
   ctx.import_rules('C01', {'R1', 'R2'}, 'R8', 'a trial handed to a worker stays ACTIVE and its own on every path, failure paths included (no ACTIVE -> REQUESTED)')
@@ -238,6 +240,7 @@ def run(ctx) -> None:
   # ------------------------------------------------------------------ R4, R5
   r45_handout(ctx, svc, fi, g, dom, prov, algo, out_lists)
   r7_returned_operation(ctx, svc, fi, g, prov)
+  r9_whole_answer(ctx, svc, fi, out_lists)
 
 
 def _len_of(e: ast.AST, names: Set[str]) -> bool:
@@ -261,6 +264,42 @@ def _bound_test(test: ast.AST, out_lists: Set[str]) -> bool:
       if dotted(r) == 'request.suggestion_count' and _len_of(l, out_lists) and isinstance(op, ast.Lt):
         return True
   return False
+
+
+def r9_whole_answer(ctx, svc, fi, out_lists) -> None:
+  # (a) PythiaServicer.Suggest returns the policy's decision as it is
+  ps = ctx.index.need_class('vizier._src.service.pythia_service.PythiaServicer')
+  sg = ps.methods['Suggest']
+  cut = None
+  for x in ast.walk(sg.node):
+    if isinstance(x, ast.Subscript) and isinstance(x.slice, ast.Slice) and 'suggestion' in unparse(x.value, 0):
+      cut = cut or x
+    if isinstance(x, (ast.Assign, ast.AugAssign, ast.Delete)):
+      tgs = x.targets if isinstance(x, (ast.Assign, ast.Delete)) else [x.target]
+      for t in tgs:
+        if isinstance(t, (ast.Attribute, ast.Subscript)) and 'suggestions' in unparse(t, 0):
+          cut = cut or x
+    if isinstance(x, ast.Call) and isinstance(x.func, ast.Attribute) and x.func.attr in ('pop', 'remove', 'clear') \
+        and 'suggestions' in unparse(x.func.value, 0):
+      cut = cut or x
+  ctx.check(cut is None, 'R9', 'PythiaServicer.Suggest forwards every suggestion', sg.node, 'the decision of the policy is not cut, re-bound or emptied',
+            f'`{unparse(cut, 70) if cut is not None else ""}` drops part of the algorithm\'s answer before the Vizier service sees it: suggestions beyond '
+            'the requested count are lost instead of being queued as REQUESTED trials', construct='pythia-truncates', func=sg.qualname)
+  # (b) every response built in SuggestTrials carries the hand-out list
+  n = 0
+  for c in flow.calls_in(fi.node):
+    if not (dotted(c.func) or '').endswith('SuggestTrialsResponse'):
+      continue
+    n += 1
+    kw = {k.arg: k.value for k in c.keywords}
+    tv = kw.get('trials')
+    ok = tv is not None and any(isinstance(x, ast.Name) and x.id in out_lists for x in ast.walk(tv))
+    ctx.check(ok, 'R9', f'SuggestTrials: response at line {c.lineno} carries the collected trials', c,
+              'trials=<hand-out list>',
+              f'`{unparse(c, 70)}` finishes the operation without the trials collected so far: the worker is told "nothing" while trials were '
+              'already made ACTIVE for it', construct='response-without-trials', func=fi.qualname)
+  if n < 2:
+    raise AnalysisError(f'SuggestTrials: only {n} SuggestTrialsResponse constructions found')
 
 
 def r7_returned_operation(ctx, svc, fi, g, prov) -> None:
